@@ -38,7 +38,7 @@ var InsertPool = func() []minijs.Token {
 		"class", "enum", "super", "null", "true", "false"} {
 		out = append(out, tk(minijs.TKeyword, k))
 	}
-	for _, id := range []string{"a", "x", "get", "set", "L", "of", "let", "yield", "g", "i"} {
+	for _, id := range []string{"a", "x", "get", "set", "L", "of", "let", "yield", "g", "i", "\\u0069f", "\\u0074his", "v\\u0061r", "cl\\u0061ss", "\\u0061"} {
 		out = append(out, tk(minijs.TIdent, id))
 	}
 	out = append(out, tk(minijs.TNum, "1"), tk(minijs.TNum, ".5"), tk(minijs.TNum, "0x1f"), tk(minijs.TStr, "\"s\""), tk(minijs.TStr, "'t'"), tk(minijs.TRegex, "/r/g"))
